@@ -88,6 +88,12 @@ def cross_process(h: Harness):
         configs.append([a, r, "backtrack", 3, {"gp": 30}.get(a, 12)])
     for gname in ("plain", "backtrack"):
         configs.append(["gpinject", "tree", gname, 4, 30])
+    # a refinement object with parameters of its own (a probability matrix), alive for the whole process; a multi-objective problem
+    # object declared with one bool, built once and handed to every run
+    for a, r in (("rs", "tree"), ("gp", "ge"), ("gp", "tree")):
+        configs.append([a, r, "wstrings", 6, {"gp": 30}.get(a, 12)])
+    configs.append(["gpmo", "tree", "plain", 9, 30])
+    configs.append(["gpmo", "ge", "full", 9, 30])
     envs = [{"PYTHONHASHSEED": "0", "C08_PAD": "0", "C08_IMPORT_ORDER": "a"},
             {"PYTHONHASHSEED": "1", "C08_PAD": "1000", "C08_IMPORT_ORDER": "b", "C08_HOLES": "1"},
             {"PYTHONHASHSEED": "4242", "C08_PAD": "123457", "C08_IMPORT_ORDER": "a"}]
